@@ -208,6 +208,78 @@ static void triple_body(int m, int n, int k, int pa, int pb)
 			}
 }
 
+// remaining public members: Resize/Assign, Normalize/Normalized, operator==, Identity_Matrix, Orthogonal, copy and assignment
+static void members(int m, int n, int pat)
+{
+	std::string cfg = "members m=" + std::to_string(m) + ",n=" + std::to_string(n) + ",pat=" + std::to_string(pat);
+	Rows a = make(m, n, pat, 7);
+	Matrix A(a);
+	{
+		Matrix B(A), C;
+		C = A;
+		CHECK(B == A && C == A && A == A, "copy/assignment/operator==", "copies_equal_original");
+		for(int i = 0; i < m; i++)
+			for(int j = 0; j < n; j++)
+			{
+				Matrix D(A);
+				D[i][j] += 0.25;
+				CHECK(!(D == A) && !(A == D), "operator==", "detects_single_entry_difference");
+			}
+		CHECK(!(A == Matrix(m, n + 1, 0.0)) && !(A == Matrix(m + 1, n, 0.0)), "operator==", "different_shapes_unequal");
+		Matrix R(A);
+		R.Resize(m + 1, n + 2);
+		bool ok = R.Rows() == (unsigned)m + 1 && R.Columns() == (unsigned)n + 2;
+		for(int i = 0; ok && i < m; i++)
+			for(int j = 0; j < n; j++) if(!(R[i][j] == a[i][j])) ok = false;
+		for(int j = 0; ok && j < n + 2; j++) if(!(R[m][j] == 0.0)) ok = false;
+		CHECK(ok, "Matrix::Resize", "keeps_entries_and_zero_fills");
+		R.Assign(n, m, 1.5);
+		ok = R.Rows() == (unsigned)n && R.Columns() == (unsigned)m;
+		for(int i = 0; ok && i < n; i++)
+			for(int j = 0; j < m; j++) if(!(R[i][j] == 1.5)) ok = false;
+		CHECK(ok, "Matrix::Assign", "shape_and_fill");
+	}
+	{
+		std::vector<double> v(n);
+		long double q = 0;
+		for(int j = 0; j < n; j++) { v[j] = entry(pat, 1, j, 5) + (j == 0 ? 4.0 : 0.0); q += (long double)v[j] * v[j]; }
+		Vector V(v), W(V), X;
+		X = V;
+		CHECK(W == V && X == V, "Vector copy/assignment", "copies_equal_original");
+		Vector U = V.Normalized();
+		W.Normalize();
+		bool ok = U == W && V == Vector(v);
+		long double nn = 0;
+		for(int j = 0; j < n; j++) { nn += (long double)U[j] * U[j]; if(!(std::fabs(U[j] - (double)(v[j] / sqrtl(q))) <= 4e-16 * std::fabs(U[j]) + 1e-300)) ok = false; }
+		CHECK(ok && std::fabs((double)nn - 1) <= 8e-16 * n, "Normalize/Normalized", "unit_vector_along_original");
+		Vector R2(V);
+		R2.Resize(n + 2);
+		ok = R2.Size() == (unsigned)n + 2 && R2[n] == 0.0 && R2[n + 1] == 0.0;
+		for(int j = 0; ok && j < n; j++) if(!(R2[j] == v[j])) ok = false;
+		CHECK(ok, "Vector::Resize", "keeps_entries_and_zero_fills");
+		R2.Assign(m, -2.5);
+		ok = R2.Size() == (unsigned)m;
+		for(int j = 0; ok && j < m; j++) if(!(R2[j] == -2.5)) ok = false;
+		CHECK(ok, "Vector::Assign", "size_and_fill");
+	}
+	if(m == n)
+	{
+		Matrix I = Identity_Matrix(n);
+		bool ok = I.Rows() == (unsigned)n && I.Columns() == (unsigned)n;
+		for(int i = 0; ok && i < n; i++)
+			for(int j = 0; j < n; j++) if(!(I[i][j] == (i == j ? 1.0 : 0.0))) ok = false;
+		CHECK(ok, "Identity_Matrix", "definition");
+		// signed permutation matrices are orthogonal; scaling one row by 2 destroys it
+		Rows p(n, std::vector<double>(n, 0.0));
+		for(int i = 0; i < n; i++) p[i][(i + pat) % n] = (i + pat) % 2 ? -1.0 : 1.0;
+		CHECK(Matrix(p).Orthogonal(), "Orthogonal", "true_on_signed_permutation");
+		p[0][(pat) % n] *= 2;
+		CHECK(!Matrix(p).Orthogonal(), "Orthogonal", "false_after_scaling_a_row");
+		Rows sing(n, std::vector<double>(n, 1.0));
+		if(n > 1) CHECK(!Matrix(sing).Orthogonal() && !Matrix(sing).Invertible(), "Orthogonal/Invertible", "false_on_singular");
+	}
+}
+
 static void predicates(int n, int pat)
 {
 	std::string cfg = "n=" + std::to_string(n) + ",pat=" + std::to_string(pat);
@@ -379,6 +451,14 @@ int main(int argc, char** argv)
 		for(int n = 1; n <= bound; n++)
 			for(int pat = 0; pat < NPAT; pat++)
 				if(mc::mine(unit++)) { predicates(n, pat); cases++; }
+		for(int m = 1; m <= bound; m++)
+			for(int n = 1; n <= bound; n++)
+				for(int pat = 0; pat < NPAT; pat++)
+					if(mc::mine(unit++))
+					{
+						if(mc::library_exits([&]() { members(m, n, pat); })) fail("members", "m=" + std::to_string(m) + ",n=" + std::to_string(n) + ",pat=" + std::to_string(pat), "valid_request_terminated_process");
+						cases++;
+					}
 		if(mc::shard0()) { blocks(); cases += mc::ctx().counters["block_arrangements"]; }
 		// Cross against the definition on every pair of 3-vectors over a small alphabet
 		if(mc::shard0())
